@@ -213,6 +213,62 @@ struct Transport::Impl
     FlushGuard &operator=(const FlushGuard &) = delete;
   };
 
+  // One in-progress setReadMode flush of THIS thread (intrusive per-thread stack:
+  // a data callback may start a nested flush of another session). It exists for
+  // one case only: the last owner releases the transport from INSIDE the data
+  // callback of its own flush. ~Transport then runs on the flushing thread, whose
+  // FlushGuard keeps its flush counted for as long as the destructor waits for
+  // the count to reach zero — a self-deadlock. ~Transport therefore ends the
+  // accounting of the calling thread's own flushes first (releaseOwnFlushes),
+  // waits out everybody ELSE, and hands Impl to the OUTERMOST of those frames,
+  // which deletes it when its flush loop has unwound (the same deferral as the
+  // I/O-thread self-destruct branch: ~Impl must not run under a frame that still
+  // uses it). The flush loop touches Impl only through its local pointer.
+  struct FlushFrame
+  {
+    Impl *impl;
+    std::unique_ptr<FlushGuard> &guard;
+    bool orphaned{false}; // ~Transport ran inside this flush's callback: delete impl on exit
+    FlushFrame *prev;
+    FlushFrame(Impl *i, std::unique_ptr<FlushGuard> &g) : impl(i), guard(g), prev(top())
+    {
+      top() = this;
+    }
+    ~FlushFrame()
+    {
+      top() = prev;
+      if (orphaned)
+      {
+        guard.reset(); // already released by ~Transport; kept for exception exits
+        delete impl;
+      }
+    }
+    FlushFrame(const FlushFrame &) = delete;
+    FlushFrame &operator=(const FlushFrame &) = delete;
+    static FlushFrame *&top()
+    {
+      static thread_local FlushFrame *t = nullptr;
+      return t;
+    }
+  };
+
+  // If the calling thread is inside the data callback of flushes of THIS Impl,
+  // run their FlushGuard destructors now (clear `flushing`, decrement the flush
+  // counter, wake teardown) and return the outermost such frame; else nullptr.
+  FlushFrame *releaseOwnFlushes()
+  {
+    FlushFrame *outer = nullptr;
+    for (FlushFrame *f = FlushFrame::top(); f != nullptr; f = f->prev)
+    {
+      if (f->impl == this)
+      {
+        f->guard.reset();
+        outer = f;
+      }
+    }
+    return outer;
+  }
+
   // Run the teardown handshake under the assumption the caller is about to
   // destroy/replace _impl. Sets shuttingDown (entry fence), wakes every parked
   // CV, and blocks until all three external-thread counters reach zero so no
@@ -643,6 +699,19 @@ inline Transport::~Transport()
   // across the entire onClose, so this onClose drop can never be the LAST reference
   // while a stopper exists — therefore ~Transport never runs on the I/O thread
   // concurrently with another thread's call (join-ordering co-ownership).
+  // FLUSHER SELF-DESTRUCTION: the last reference was dropped inside the data
+  // callback of a setReadMode(Async) flush, which runs on the CALLER's thread. That
+  // thread is counted as an active flusher, so the ordinary handshake below would
+  // wait for itself for ever. End this thread's own flush accounting, tear down
+  // as usual (fence, stop the engine, wait out every OTHER caller), and leave Impl
+  // to the flush frame still on this thread's stack (see Impl::FlushFrame).
+  if (Impl::FlushFrame *outer = _impl->releaseOwnFlushes())
+  {
+    _impl->performTeardown();
+    outer->orphaned = true; // ~Impl runs when that flush loop has unwound
+    (void)_impl.release();
+    return;
+  }
   if (std::this_thread::get_id() == _impl->engine->getIoThreadId())
   {
 #ifdef IORA_DISABLE_SELFDESTRUCT_DEFERRAL
@@ -1133,15 +1202,20 @@ inline bool Transport::setReadMode(SessionId sid, ReadMode mode)
                                          _impl->teardownCv, buf);
   }
 
+  // From the first callback on, `this` may be gone: the callback may have released
+  // the last owner (see Impl::FlushFrame). Use only the local pointer below.
+  Impl *const impl = _impl.get();
+  Impl::FlushFrame flushFrame(impl, flushGuard);
+
   for (;;)
   {
     std::vector<std::uint8_t> flushData;
     {
-      std::lock_guard<std::mutex> lk(_impl->syncMutex);
+      std::lock_guard<std::mutex> lk(impl->syncMutex);
       // Bail if teardown began mid-flush: the handshake is waiting on
       // activeFlushes==0 and will own the maps. The FlushGuard dtor clears
       // flushing/activeFlushes and wakes it.
-      if (_impl->shuttingDown)
+      if (impl->shuttingDown)
       {
         return false;
       }
@@ -1155,7 +1229,7 @@ inline bool Transport::setReadMode(SessionId sid, ReadMode mode)
       {
         // Buffer is empty — atomically switch mode to Async while holding lock.
         // The I/O thread will see Async mode on the next data arrival.
-        _impl->readModes[sid] = ReadMode::Async;
+        impl->readModes[sid] = ReadMode::Async;
         break;
       }
     } // syncMutex released before callback invocation (HR-6)
